@@ -143,6 +143,16 @@ def run(ctx, prop):
         "aborts_by_site": dict(aborts),
         "stage_outputs_judged": judged,
     }
+    if prop == "C04":
+        # hypotheses of Scfg.C04.walks_agree_iff evaluated on the real stage outputs (statistics:
+        # where they hold the theorem applies; `wf` itself is the property and judged above)
+        st = [chk for c in cases for chk in c["stages"].values()]
+        cov["walks_agree_iff_hypotheses"] = {
+            "stage_outputs": len(st),
+            "containers_are_regions": sum(1 for k in st if k.get("conts") == "1"),
+            "wf_and_s2": sum(1 for k in st if set(k.get("wf", "0")) == {"1"} and len(k.get("structured", "")) >= 2 and k["structured"][1] == "1"),
+            "region_walk_error_free_and_equal_to_name_walk": sum(1 for k in st if k.get("simName") == "1" and k.get("simRegion") == "1"),
+        }
     return {"level": LEVEL, "coverage": cov, "violations": violations, "assumptions": ASSUMPTIONS}
 
 
